@@ -31,10 +31,13 @@ TRemove == /\ Is("remove")
               ELSE (Ev.id \notin nodes \/ Ev.id \in dead) /\ UNCHANGED vars
 TFlush  == /\ Is("flush")
            /\ IF dead # {} THEN Flush /\ SameGraph ELSE UNCHANGED vars
+\* serialising flushes the tombstones; the reloaded index must carry exactly that graph (and the history continues on it)
+TReload == /\ Is("reload") /\ Ev.ok
+           /\ IF dead # {} THEN Flush /\ SameGraph ELSE UNCHANGED vars /\ SameGraph
 TSearch == Is("search") /\ SetOf(Ev.res) = SearchFrom(Ev.q) /\ UNCHANGED vars
 \* a search with efSearch below the resident count is outside the regime of this module: judged by HNSWP (non-emptiness) only
 TLowEf == Is("search.lowef") /\ UNCHANGED vars
-TraceNext == TReset \/ TAdd \/ TRemove \/ TFlush \/ TSearch \/ TLowEf
+TraceNext == TReset \/ TAdd \/ TRemove \/ TFlush \/ TReload \/ TSearch \/ TLowEf
 TraceSpec == Init /\ l = 1 /\ [][TraceNext]_tvars
 Accepted == LET d == TLCGet("stats").diameter IN PrintT("CONSUMED " \o ToString(d - 1))
 =============================================================================
